@@ -29,6 +29,9 @@ LAYOUTS = {
     'reserved': [('class', 'string', False), ('from', 'string', True), ('name', 'string', False), ('import', 'int32', True)],
     'none': [],
     'all-required': [('x', 'string', True), ('y', 'string', True)],
+    # declaration order differs from field-number order
+    'numbers-descending': [('scope', 'string', False, 9), ('name', 'string', True, 5), ('tail', 'string', True, 3), ('extra', 'int32', False, 1)],
+    'number-inserted-later': [('parent', 'string', True, 1), ('from', 'string', False, 7), ('item_id', 'string', True, 2), ('filter', 'string', False, 3)],
 }
 
 
@@ -45,12 +48,12 @@ def build(n_services, transport, internal=False):
             k += 1
             layout = lay[(ri + si) % len(lay)]
             rq = f'{sname}{rpc[0].upper()}{rpc[1:]}Request'
-            fs = [field(n, i + 1, t, required=req) for i, (n, t, req) in enumerate(LAYOUTS[layout])]
+            fs = [field(x[0], x[3] if len(x) > 3 else i + 1, x[1], required=x[2]) for i, x in enumerate(LAYOUTS[layout])]
             msgs.append(message(rq, fs))
             http = ('post', f'/v1/{sname.lower()}/{ri}', '*')
             meths.append(method(rpc, Q(rq), Q('Resp') if ri % 4 else EMPTY, http=http))
-            table.setdefault(sname, {})[rpc] = dict(layout=layout, fields=[n for n, _, _ in LAYOUTS[layout]],
-                                                    required=[n for n, _, r in LAYOUTS[layout] if r])
+            table.setdefault(sname, {})[rpc] = dict(layout=layout, fields=[x[0] for x in LAYOUTS[layout]],
+                                                    required=[x[0] for x in LAYOUTS[layout] if x[2]])
         svcs.append(service(sname, meths))
     f = file('acme/meta/v1/meta.proto', P, messages=msgs, services=svcs)
     param = f'transport={transport},metadata,autogen-snippets=false'
@@ -185,7 +188,7 @@ def run(ctx, only=None):
                 bad('fixup-extra-keys', '-', sorted(extra))
         ctx.outcome('judged')
         ctx.sample(dict(variant=v, services={s: sorted(r) for s, r in table.items()}, client_kinds=kinds), limit=2)
-    ctx.extra['bound'] = '15 variants x 12 RPC names x 6 request layouts'
+    ctx.extra['bound'] = '15 variants x 12 RPC names x 8 request layouts'
 
 
 def replay(ctx, state):
